@@ -235,6 +235,20 @@ RUN_EVENTS = RA([
     ("run_manual_silent", "manual_threads_silent", "OpenCircuit / CloseCircuit tell the run collectors nothing")])
 RUN_LIVE = RA([("run_never_deadlocks", "never_deadlocks", "whole calls racing transitions never deadlock")])
 
+# ---- whole calls racing LIVE RECONFIGURATION (Conc/RunDyn: operator threads storing new override flags and a new limit), Props/RunDynAll.lean
+def RD(items): return [((a, "CM.Props.RunDynAll." + t, d), "Props.RunDynAll") for a, t, d in items]
+RD_EVENTS = RD([
+    ("dyn_exactly_the_right_events", "exactly_the_right_events_dyn", "whole calls racing operators that store new override flags and a new limit at arbitrary moments, every schedule: a call that ended has told the run collectors exactly what its outcome calls for, and its function was invoked exactly once iff it ran"),
+    ("dyn_at_most_one_event", "at_most_one_event_ever_dyn", "… never more than one event / one invocation while it is under way"),
+    ("dyn_others_silent", "others_silent_dyn", "operators, OpenCircuit and CloseCircuit tell the run collectors nothing")])
+RD_GAUGE = RD([
+    ("dyn_gauge_never_negative", "gauge_never_negative_dyn", "under live reconfiguration, every schedule: the gauge is never negative"),
+    ("dyn_quiescent_gauge_zero", "quiescent_gauge_zero_dyn", "… and reads zero once everybody has returned (by return, refusal or panic)"),
+    ("dyn_inflight_le_largest_limit", "inflight_le_largest_limit_dyn", "with the limit changed while calls are in flight, never more callers inside the run function than the LARGEST limit ever in force: each admission is decided against the old or the new limit, never a mixture")])
+RD_ALT = RD([("dyn_notifications_alternate", "notifications_alternate_dyn", "whole calls, OpenCircuit / CloseCircuit and operators switching overrides, every schedule: Opened / Closed strictly alternate and the state flag is the last notification whenever the transition mutex is free")])
+RD_LIVE = RD([("dyn_never_deadlocks", "never_deadlocks_dyn", "whole calls racing transitions racing reconfigurations never deadlock")])
+RD_VIEW = [(("dyn_call_thread_view", "CM.Props.RunDynView.call_thread_view", "every schedule of calls racing operators, seen from one call thread, is a solo run of the static model's thread against some oracle — the runs the K6 ties of `run` / `IsOpen` / `openCircuit` / `close` quantify over"), "Props.RunDynView")]
+
 # ---- hystrix / simplelogic / default factories (units GoHFac*)
 HFAC_LAYERS = T("GoHFacLayers", [
   ("tie_hfac_createCloser", "CM.GoTie.GoHFacLayers.go_createCloser_eq", "`Factory.createCloser` hands CloserFactory `layer`: last constructor > … > first > factory-wide"),
@@ -339,7 +353,7 @@ K6_RUN = [((a, "CM.GoTie.IRun." + t, d), "I_Run") for a, t, d in [
 
 PROPS = {
     "C01": ("load shedding: who is admitted is decided by `allowNewRun` / `run`",
-            [C("IsOpen"), C("allowNewRun"), RUN] + NEVER + ERR_OPEN + K6_CALL + K6_TRANS + K6_CORE + RUN_C01 + RUN_EVENTS[:1] + RUN_VIEWS[:1] + RUN_LIVE + HFAC_CLOSER[:3] + HFAC_LAYERS[:1] + K6_RUN[:1]),
+            [C("IsOpen"), C("allowNewRun"), RUN] + NEVER + ERR_OPEN + K6_CALL + K6_TRANS + K6_CORE + RUN_C01 + RUN_EVENTS[:1] + RUN_VIEWS[:1] + RUN_LIVE + HFAC_CLOSER[:3] + HFAC_LAYERS[:1] + K6_RUN[:1] + RD_EVENTS[:1] + RD_VIEW),
     "C02": ("the built-in openers' method bodies, translated from today's opener.go / closers.go, are the model's functions",
             T("GoHOpener", evs("GoHOpener", "HOpener.onRun") + [
                 ("tie_GoHOpener_Opened", "CM.GoTie.GoHOpener.go_Opened_eq", "`Opened` resets both rolling counters"),
@@ -361,18 +375,18 @@ PROPS = {
                 ("tie_GoHCloser_ShouldClose", "CM.GoTie.GoHCloser.go_ShouldClose_eq", "`ShouldClose` compares the successes in a row with the required number")]) + TC +
             [C("close"), C("checkSuccess")] + CLOSER_CFG + K6_TC + TC_HOOK + HFAC_CLOSER + HFAC_CHAIN[:1] + HFAC_LAYERS[:1]),
     "C04": ("the gauges and limits: `throttleConcurrentCommands`, the deferred decrements in `run` / `fallback`, the published limits",
-            [C("throttleConcurrentCommands"), C("ConcurrentCommands"), C("ConcurrentFallbacks"), RUN, FALLBACK] + LIVECFG + ERR_LIMIT + ATOM_I64 + RUN_C04 + RUN_EVENTS[:1] + RUN_VIEWS[1:] + K6_FB + K6_CORE + K6_RUN[:1]),
+            [C("throttleConcurrentCommands"), C("ConcurrentCommands"), C("ConcurrentFallbacks"), RUN, FALLBACK] + LIVECFG + ERR_LIMIT + ATOM_I64 + RUN_C04 + RUN_EVENTS[:1] + RUN_VIEWS[1:] + K6_FB + K6_CORE + K6_RUN[:1] + RD_GAUGE),
     "C05": ("the classification chain of `run`",
-            [C("checkErrBadRequest"), C("checkErrTimeout"), C("checkErrInterrupt"), C("checkErrFailure"), C("checkSuccess"), RUN] + FAN_RUN + ALL + ERR_BAD + CTOR + RUN_EVENTS + K6_RUN[:1]),
+            [C("checkErrBadRequest"), C("checkErrTimeout"), C("checkErrInterrupt"), C("checkErrFailure"), C("checkSuccess"), RUN] + FAN_RUN + ALL + ERR_BAD + CTOR + RUN_EVENTS + K6_RUN[:1] + RD_EVENTS),
     "C06": ("fallback rules: `Execute` and `fallback`", [FALLBACK, EXECUTE, RUNENTRY] + FAN_FB + ERR_BAD + ERR_NOTBAD + K6_FB[:1] + K6_FB[2:]),
     "C07": ("contexts: the derived deadline context in `run`, the caller's context everywhere else", [RUN, FALLBACK, EXECUTE]),
     "C08": ("overrides and pass-through: `IsOpen`, `allowNewRun`, the transitions, `Execute`'s Disabled branch, the published flags",
             [C("IsOpen"), C("isEmptyOrNil"), C("allowNewRun"), C("openCircuit"), C("close"), C("attemptToOpen"), EXECUTE] + LIVECFG + SETCFG + ATOM_BOOL + CIRC_MISC),
     "C09": ("transitions and their notifications",
-            [C("IsOpen"), C("openCircuit"), C("close"), C("attemptToOpen"), C("OpenCircuit"), C("CloseCircuit"), C("checkSuccess"), C("checkErrFailure"), C("checkErrTimeout")] + FAN_CIRC + SETCFG + ATOM_BOOL + K6_TRANS + K6_CORE + CTOR + HFAC_CLOSER[2:3] + HFAC_OPENER[5:6] + K6_RUN),
-    "C10": ("panics: the deferred calls of `run` and `fallback` run on every exit", [RUN, FALLBACK, EXECUTE] + CIRC_MISC + RUN_EVENTS[:1] + RUN_C04[3:4] + RUN_LIVE + K6_RUN[:1]),
+            [C("IsOpen"), C("openCircuit"), C("close"), C("attemptToOpen"), C("OpenCircuit"), C("CloseCircuit"), C("checkSuccess"), C("checkErrFailure"), C("checkErrTimeout")] + FAN_CIRC + SETCFG + ATOM_BOOL + K6_TRANS + K6_CORE + CTOR + HFAC_CLOSER[2:3] + HFAC_OPENER[5:6] + K6_RUN + RD_ALT),
+    "C10": ("panics: the deferred calls of `run` and `fallback` run on every exit", [RUN, FALLBACK, EXECUTE] + CIRC_MISC + RUN_EVENTS[:1] + RUN_C04[3:4] + RUN_LIVE + K6_RUN[:1] + RD_EVENTS[:1] + RD_GAUGE[1:2] + RD_LIVE),
     "C11": ("reconfiguration: what each SetConfigThreadSafe writes (circuit, hystrix opener, hystrix closer, SLO tracker) — every setting, nothing else",
-            SETCFG + LIVECFG + OPENER_CFG + CLOSER_CFG + SLO_CFG + VARS_C11),
+            SETCFG + LIVECFG + OPENER_CFG + CLOSER_CFG + SLO_CFG + VARS_C11 + RD_EVENTS + RD_GAUGE + RD_ALT + RD_LIVE + RD_VIEW),
     "C12": ("every timestamp is a reading of the configured clock: all translated functions of circuit.go",
             [C("now"), C("OpenCircuit"), C("CloseCircuit"), RUN, FALLBACK] + ALL + CTOR[:4]),
     "C13": ("the rolling counter: rolling_bucket.go's `Advance` and rolling_counter.go's methods are the model `RC`", ROLL + FSNEW_RC + ROLL_STORE),
@@ -418,7 +432,7 @@ UNITS = {"F_": "gocircuit", "All": "gocircuit", "T_GoHOpener": "gohopener", "T_G
          "T_GoFbStatsVar": ["gofbstatsvar", "gofbstats"], "T_GoRunStatsVar": ["gorunstatsvar", "gorunstats"], "T_GoSloVar": "goslovar",
          "T_GoRPVar": ["gorpvar", "gorpsnap", "gosdvar", "gosorteddurations"], "T_GoManagerVar": "gomanagervar", "T_GoExpvarToVal": "goexpvartoval",
          "T_GoFanRunVar": "gofanrunvar", "T_GoFanFbVar": ["gofanfbvar", "gofanrunvar"], "T_GoCircuitVar": "gocircuitvar",
-         "I_Core": [], "Props.RunAll": [], "I_Fb": "gofbi", "I_Run": "goruni", "I_Mgr": ["gomgri", "gomgriall", "gomanager"], "I_RC": ["gorciclear", "gorciadv", "gorciops"], "I_TC": "gotci", "I_Call": "gocalli",
+         "I_Core": [], "Props.RunAll": [], "Props.RunDynAll": [], "Props.RunDynView": [], "I_Fb": "gofbi", "I_Run": "goruni", "I_Mgr": ["gomgri", "gomgriall", "gomanager"], "I_RC": ["gorciclear", "gorciadv", "gorciops"], "I_TC": "gotci", "I_Call": "gocalli",
          "T_GoLiveLogic": ["goneveropens", "gonevercloses", "gohopenercfg", "gohclosercfg", "goslocfg"]}
 
 def units_of(prop):
